@@ -298,8 +298,23 @@ def run_job(job, unit, workdir, log=print):
             # Callees without a body are stubs whose bodies come from the spec (trusted, listed in the evidence).
             import replay as RP
             raw = job.get('specs', {})
+            # recursion (same rule as the bounded counterexample search): the function under test and its direct callees keep their real bodies,
+            # calls made by those callees back into the recursive group go to contract stubs (spec key cex_stub)
+            rec = list(job.get('cex_recursive', ()))
+            rename = {g: {h: h + '_cexstub' for h in rec} for g in rec if g != job['fn']} if rec else None
             text, lw = lowered_text(ast, job['roots'], {k: {kk: vv for kk, vv in v.items() if kk == 'ghost_returns'} for k, v in raw.items()},
-                                    cuts=job.get('cuts', ()), drop_contracts=True, cut_qual=job.get('cut_qual', ()), uncut_qual=job.get('uncut_qual', ()))
+                                    cuts=job.get('cuts', ()), drop_contracts=True, cut_qual=job.get('cut_qual', ()), uncut_qual=job.get('uncut_qual', ()), call_rename=rename)
+            fwd = ''
+            for h in rec:
+                if h in lw.fn_info and raw.get(h, {}).get('cex_stub'):
+                    pr = lw.proto(lw.fn_info[h]['node']).replace(h + '(', h + '_cexstub(', 1)
+                    fwd += pr + ';\n'
+                    text += '\n' + pr + '\n{\n' + raw[h]['cex_stub'] + '\n}\n'
+                elif h in lw.fn_info:
+                    raise Undecided('harness mode: no cex_stub for recursive callee %s' % h)
+            if fwd:
+                head_, mark_, rest_ = text.partition('/* ---- end types ---- */')
+                text = head_ + mark_ + '\n' + fwd + rest_
             fixed = dict(job.get('fixed') or {})
             if job.get('sweep'):
                 fixed[job['sweep'][0]] = 'QX_SWEEP'
